@@ -74,6 +74,14 @@ func c02Scenarios(cfg runCfg) []Scenario {
 			}
 		}
 	}
+	// a property that is falsified only in its n-th execution, whatever it is given (it depends on something outside
+	// its draws): that execution falsified it, so the test fails (rapid may well call it flaky - it must not pass)
+	for j := 0; j < cfg.n(64, 20); j++ {
+		if cfg.mine(i) {
+			out = append(out, Scenario{Family: "nth-execution", Seed: mix(cfg.seed, 2, 8, uint64(j)), K: j % nFailKinds, N: []int{1, 1, 2, 3, 7, 10}[j%6]})
+		}
+		i++
+	}
 	// skip-only programs never fail (unless the budget is exhausted)
 	for j := 0; j < cfg.n(60, 50); j++ {
 		if cfg.mine(i) {
@@ -300,6 +308,26 @@ func c02Body(sp *c02Spec) func(x *X) {
 func c02Run(t *testing.T, sc Scenario, res *Result) {
 	defer os.RemoveAll("testdata")
 	r := newRng(sc.Seed, 0xc02)
+	if sc.Family == "nth-execution" {
+		if sc.K == fkLibAssert {
+			sc.K = fkPanicStr
+		}
+		execs := 0
+		cr := runBody(func(x *X) {
+			x.draw(rapid.Uint8().AsAny(), "v")
+			execs++
+			if execs == sc.N {
+				x.fail(sc.K, 0)
+			}
+		}, runOpts{name: "C02nth", flags: map[string]string{"rapid.seed": fmt.Sprint(sc.Seed%1000003 + 1), "rapid.checks": "10", "rapid.nofailfile": "true", "rapid.shrinktime": "0s"}, noExit: true})
+		res.inc("checks_run")
+		res.inc("nth_execution_runs")
+		res.nontrivial(fmt.Sprintf("nth-execution/%d/%d", sc.K, sc.N))
+		if !cr.tb.Failed() {
+			res.violate(sc, "c02/nth-execution", fmt.Sprintf("execution #%d of the property signalled %s (and no other did); Check did not fail the test: %s", sc.N, failKindNames[sc.K], clip(cr.rp.Kind+" "+cr.rp.Raw, 200)), map[string]any{"tb": cr.tb.brief()})
+		}
+		return
+	}
 	if sc.Family == "skip-only" {
 		rate := r.between(0, 100)
 		checks := pick(r, []int{1, 10, 100})
